@@ -402,10 +402,8 @@ func checkC09(r *Run) {
 				_, pcall := c.packedType(s.Write.Call.Args[1])
 				okCID := false
 				if pcall != nil {
-					if al, ok := c.Resolve(pcall.Call.Args[0]).(*ssa.Alloc); ok {
-						if v := c.storedField(al, "ClientID"); v != nil && c.Resolve(v) == ssa.Value(bc.Params[2]) {
-							okCID = true
-						}
+					if v := c.packetField(pcall.Call.Args[0], "ClientID"); v != nil && c.Resolve(v) == ssa.Value(bc.Params[2]) {
+						okCID = true
 					}
 				}
 				nW := 0
@@ -709,6 +707,13 @@ func checkC08(r *Run) {
 		} else {
 			var snap ssa.Value
 			eachInstr(task, func(in ssa.Instruction) {
+				if mk, ok := in.(*ssa.MakeSlice); ok {
+					if src := c.makeCopySource(mk); src != nil {
+						if _, isSE := isLoadOfField(stripConv(src), a.SubEst); isSE {
+							snap = mk
+						}
+					}
+				}
 				call, ok := in.(*ssa.Call)
 				if !ok {
 					return
